@@ -334,6 +334,8 @@ WiringPortRef wire_node(Scope &sc, const JV &st, std::vector<WiringPortRef> ins)
             // a consumer of a reference-shaped port reads THROUGH the reference unless it asks for the REF itself
             const TSValueTypeMetaData *fs = ins[i].schema;
             if (fs != nullptr && fs->kind == TSTypeKind::REF && !as_ref) fs = fs->referenced_ts();
+            // a SIGNAL-typed input: the node only wants to know THAT its source ticked
+            if (st.bool_or("as_signal", false)) fs = reg.signal();
             f.emplace_back("i" + std::to_string(i), fs);
         }
         m.input_schema = reg.un_named_tsb(f);
